@@ -67,10 +67,11 @@ func (t *BlockTree) PathToLeaf() *BlockPath {
 		return nil
 	}
 
-	p := &BlockPath{block: t.Block, next: nil}
+	// Start from the empty path: the loop below already adds the receiver's block, so seeding the path with
+	// t.Block would duplicate the leaf at the end of the path ([root, ..., leaf, leaf]).
+	var p *BlockPath
 	for leaf := t; leaf != nil; leaf = leaf.Parent {
-		p2 := &BlockPath{block: leaf.Block, next: p}
-		p = p2
+		p = &BlockPath{block: leaf.Block, next: p}
 	}
 	return p
 }
